@@ -35,20 +35,27 @@ def hand_rewrite(h, mp: dict):
             return mp[h]
     except TypeError:
         pass
+    # wrappers (TypeVar, NewType, alias) are replaced by their rewritten content ONLY when the rewriting changes that
+    # content: an untouched wrapper stays the hint it is (replacing it would let typing merge union members that
+    # beartype keeps apart, e.g. Union[frozenset[NT_INT], frozenset[TV_BOUND]] -> Union[frozenset[int]])
     if isinstance(h, T.TypeVar):          # a TypeVar stands for its bound / the union of its constraints
         if h.__bound__ is not None:
-            return hand_rewrite(h.__bound__, mp)
+            r = hand_rewrite(h.__bound__, mp)
+            return r if repr(r) != repr(h.__bound__) else h
         if h.__constraints__:
-            return T.Union[tuple(hand_rewrite(c, mp) for c in h.__constraints__)]
+            rs = tuple(hand_rewrite(c, mp) for c in h.__constraints__)
+            return T.Union[rs] if [repr(x) for x in rs] != [repr(c) for c in h.__constraints__] else h
         return h
     if hasattr(h, '__supertype__'):        # a NewType stands for its supertype
-        return hand_rewrite(h.__supertype__, mp)
+        r = hand_rewrite(h.__supertype__, mp)
+        return r if repr(r) != repr(h.__supertype__) else h
     if isinstance(h, T.TypeAliasType):     # a PEP 695 alias stands for its value
         if any(a is h for a in _ALIASES):  # a recursive alias has no finite hand-rewritten spelling
             raise RecursiveAlias(repr(h))
         _ALIASES.append(h)
         try:
-            return hand_rewrite(h.__value__, mp)
+            r = hand_rewrite(h.__value__, mp)
+            return r if repr(r) != repr(h.__value__) else h
         finally:
             _ALIASES.pop()
     origin, args = T.get_origin(h), T.get_args(h)
